@@ -1,6 +1,7 @@
 package wring
 
 import (
+	"fmt"
 	"sort"
 	"time"
 
@@ -82,6 +83,58 @@ func (w *world) checkTokenRanges(d *ring.Desc) {
 	}
 	c := ringCfg{rf: nz, zoneAware: true}
 	r := w.freshRing(d, c)
+	w.checkTokenRangesOn(r, d, nz, "ring")
+	// the same ring with one instance having registered its tokens in another order (older versions did):
+	// what a client reports must not depend on the order in which an instance lists its tokens
+	if ids := sortedIDs(d); len(ids) > 0 && !s.Failed() {
+		id := ids[s.Choose(len(ids), "unsorted-instance")]
+		if e := d.Ingesters[id]; len(e.Tokens) >= 2 {
+			d2 := d.Clone().(*ring.Desc)
+			toks := append([]uint32(nil), e.Tokens...)
+			for i, j := 0, len(toks)-1; i < j; i, j = i+1, j-1 {
+				toks[i], toks[j] = toks[j], toks[i]
+			}
+			e.Tokens = toks
+			d2.Ingesters[id] = e
+			s.Probe("ranges-with-unsorted-registered-tokens")
+			w.checkTokenRangesOn(w.freshRing(d2, c), d2, nz, "ring with unsorted tokens of "+id)
+		}
+	}
+	// sub-rings (shuffle shards) are rings: their reported ranges and their lookups must agree as well
+	if !s.Failed() {
+		size := nz * s.Range(1, 2, "shard-per-zone")
+		var sub ring.ReadRing
+		w.try("ShuffleShard", func() { sub = r.ShuffleShard("tenant-"+string(rune('a'+s.Choose(4, "tenant"))), size) })
+		if sub != nil {
+			dsub := d.Clone().(*ring.Desc)
+			for id := range d.Ingesters {
+				if !sub.HasInstance(id) {
+					delete(dsub.Ingesters, id)
+				}
+			}
+			zs := map[string]bool{}
+			for _, e := range dsub.Ingesters {
+				if len(e.Tokens) > 0 {
+					zs[e.Zone] = true
+				}
+			}
+			if len(zs) == nz && len(dsub.Ingesters) < len(d.Ingesters) {
+				s.Probe("ranges-on-subring")
+				w.checkTokenRangesOn(sub, dsub, nz, "shuffle shard of size "+fmt.Sprint(size))
+			}
+		}
+	}
+}
+
+// checkTokenRangesOn compares what r (a client over exactly the instances of d) reports with ownership computed from d.
+func (w *world) checkTokenRangesOn(r ring.ReadRing, d *ring.Desc, nz int, what string) {
+	s := w.s
+	zonesWithTokens := map[string]bool{}
+	for _, e := range d.Ingesters {
+		if len(e.Tokens) > 0 {
+			zonesWithTokens[e.Zone] = true
+		}
+	}
 	keys := boundaryKeys(d, 64)
 	type span struct{ lo, hi uint64 }
 	perZone := map[string][]span{}
@@ -94,7 +147,7 @@ func (w *world) checkTokenRanges(d *ring.Desc) {
 		var err error
 		w.try("GetTokenRangesForInstance", func() { tr, err = r.GetTokenRangesForInstance(id) })
 		if err != nil {
-			s.Fail("token-ranges-error", "", "GetTokenRangesForInstance(%s) on a zone-aware ring with RF = zones = %d: %v; ring: %s", id, nz, err, fmtDesc(d))
+			s.Fail("token-ranges-error", "", "%s: GetTokenRangesForInstance(%s) on a zone-aware ring with RF = zones = %d: %v; ring: %s", what, id, nz, err, fmtDesc(d))
 			continue
 		}
 		if len(tr)%2 != 0 || !sort.SliceIsSorted(tr, func(i, j int) bool { return tr[i] < tr[j] }) {
@@ -109,7 +162,7 @@ func (w *world) checkTokenRanges(d *ring.Desc) {
 			owner := zoneOwner(d, e.Zone, k)
 			if inc != (owner == id) {
 				tag, key := "token-ranges-vs-ownership", ""
-				s.Fail(tag, key, "instance %s (zone %s, tokens %v): ranges %v include key %d = %v, but the lookup assigns key %d to %s in that zone; ring: %s", id, e.Zone, e.Tokens, tr, k, inc, k, owner, fmtDesc(d))
+				s.Fail(tag, key, "%s: instance %s (zone %s, tokens %v): ranges %v include key %d = %v, but the lookup assigns key %d to %s in that zone; ring: %s", what, id, e.Zone, e.Tokens, tr, k, inc, k, owner, fmtDesc(d))
 			}
 			s.ProbeN("range-membership-compared", 1)
 		}
@@ -152,7 +205,7 @@ func (w *world) checkTokenRanges(d *ring.Desc) {
 			}
 			for _, inst := range rs.Instances {
 				if zoneOwner(d, inst.Zone, k) != inst.Id {
-					s.Fail("lookup-vs-zone-owner", "", "Get(%d) returned %s for zone %s, the zone's owner of that key is %s", k, inst.Id, inst.Zone, zoneOwner(d, inst.Zone, k))
+					s.Fail("lookup-vs-zone-owner", "", "%s: Get(%d) returned %s for zone %s, the zone's owner of that key is %s; ring: %s", what, k, inst.Id, inst.Zone, zoneOwner(d, inst.Zone, k), fmtDesc(d))
 				}
 			}
 		}
